@@ -7,6 +7,8 @@ import Mimium.Proofs.TypeRecDetect
 import Mimium.Gen.TypingFacts
 import Mimium.Gen.ParentWriters
 import Mimium.Proofs.LowerFront
+import Mimium.Proofs.UnifyTermTop
+import Mimium.Proofs.UnifyFuel
 /-!
 # C04 — front end and compile entry points are total on arbitrary text
 
@@ -679,5 +681,83 @@ theorem C04_lower_spans_in_range (C : Classes) (T : Tables) (ok : TablesOk T = t
     · exact ⟨h0, h0⟩
   obtain ⟨⟨a1, a2⟩, ⟨b1, b2⟩⟩ := Sp.eval_closed (fun n => n ≤ utf8Len s ∧ IsBoundary s n) _ h0 hl sp
   exact ⟨a1, b1, a2, b2⟩
+/-! ## the WHOLE of unification (`Model/Unify.lean` = `unify_types` + `unify_types_args`, every structural arm) -/
+
+open Mimium.Unify in
+/-- Whatever `unify_types` (`args = false`) / `unify_types_args` (`args = true`) answer — `Ok` or `Err`, with ANY fuel — on an
+acyclic store, the store they leave is acyclic and every variable that was bound keeps its parent (only unbound variables are
+bound): the structural arms issue nothing but further calls, failed attempts of the union arms and the four passes of the
+record arm included.  Stores: ALL; types: ALL. -/
+theorem C04_unify_preserves_acyclic (g f : Nat) (args : Bool) (σ σ' : Unify.Store) (t1 t2 : Unify.Ty) (r : Res)
+    (hσ : Occurs.Acyclic (absS σ)) (h : go g f args σ t1 t2 = some (σ', r)) :
+    Occurs.Acyclic (absS σ') ∧ ∀ v p, Occurs.parent σ v = some p → Occurs.parent σ' v = some p :=
+  go_good g f args σ t1 t2 hσ σ' r h
+
+open Mimium.Unify in
+/-- … hence every store a SEQUENCE of unification requests builds from the empty store is acyclic, and `occur_check` and
+`get_root` on it return within the explicit bounds of `C04_occur_check_fuel_bound` -/
+theorem C04_unify_sequence_acyclic (g f : Nat) (reqs : List (Bool × Unify.Ty × Unify.Ty)) (σ : Unify.Store)
+    (h : runSeq g f [] reqs = some σ) :
+    Occurs.Acyclic (absS σ) ∧
+    (∀ v t fuel, Occurs.size (abs t) + Occurs.total (absS σ) ≤ fuel → ∃ b, occurs fuel σ v t = some b) := by
+  have gen : ∀ (reqs : List (Bool × Unify.Ty × Unify.Ty)) (σ0 σ : Unify.Store), Occurs.Acyclic (absS σ0) →
+      runSeq g f σ0 reqs = some σ → Occurs.Acyclic (absS σ) := by
+    intro reqs
+    induction reqs with
+    | nil => intro σ0 σ h0 h; simp only [runSeq, Option.some.injEq] at h; subst h; exact h0
+    | cons q qs ih =>
+      intro σ0 σ h0 h
+      obtain ⟨k, a, b⟩ := q
+      simp only [runSeq] at h
+      cases hc : go g f k σ0 a b with
+      | none => simp [hc] at h
+      | some o =>
+        obtain ⟨σ1, r⟩ := o
+        simp only [hc] at h
+        exact ih σ1 σ (go_good g f k σ0 a b h0 σ1 r hc).1 h
+  have hac := gen reqs [] σ Occurs.acyclic_nil h
+  exact ⟨hac, fun v t fuel hf => Occurs.occ_total_bound (absS σ) hac false v (abs t) fuel hf⟩
+
+open Mimium.Unify in
+/-- **Termination of the WHOLE of unification, with an explicit bound.**  On every acyclic store, for ALL types, `unify_types`
+(`args = false`) / `unify_types_args` (`args = true`) return as soon as the fuel for `get_root` / `occur_check` reaches
+`fuelG σ t1 t2` and the fuel for the nesting of unification calls reaches `fuelF σ t1 t2` — with `s` = constructors of the two types
+and of all parents (as `occur_check` sees them), `n = σ.length + s` (no reachable store has more entries), `h = s + n·s` (no type
+gets higher in any reachable store): `fuelG = h + n + 1`, `fuelF = 4 (2h² + 2h) + 4`.  (The nesting is NOT bounded by the sum of
+the two heights: the record arm unifies a defaulted field with itself, so the measure is (max, sum) of the heights,
+lexicographically, times the four re-dispatches of `unify_types_args`.) -/
+theorem C04_unify_terminates (σ : Unify.Store) (t1 t2 : Unify.Ty) (hσ : Occurs.Acyclic (absS σ)) (args : Bool) (g f : Nat)
+    (hg : fuelG σ t1 t2 ≤ g) (hf : fuelF σ t1 t2 ≤ f) : ∃ σ' r, go g f args σ t1 t2 = some (σ', r) :=
+  go_terminates σ t1 t2 hσ args g f hg hf
+
+open Mimium.Unify in
+/-- … and every request of every SEQUENCE of requests from the empty store returns with the fuel of the bound taken at its own
+store (what `drv_c03u` runs) -/
+theorem C04_unify_sequence_terminates (g f : Nat) (reqs : List (Bool × Unify.Ty × Unify.Ty)) (σ : Unify.Store)
+    (h : runSeq g f [] reqs = some σ) (k : Bool) (a b : Unify.Ty) :
+    ∃ σ' r, go (fuelG σ a b) (fuelF σ a b) k σ a b = some (σ', r) :=
+  go_terminates σ a b (C04_unify_sequence_acyclic g f reqs σ h).1 k _ _ (Nat.le_refl _) (Nat.le_refl _)
+
+open Mimium.Unify in
+/-- The fuel is not observable: an answer given with fuels `(g, f)` is given with all larger fuels … -/
+theorem C04_unify_fuel_monotone (g g' f f' : Nat) (hg : g ≤ g') (hf : f ≤ f') (args : Bool) (σ : Unify.Store) (t1 t2 : Unify.Ty)
+    (o : Unify.Store × Res) (h : go g f args σ t1 t2 = some o) : go g' f' args σ t1 t2 = some o :=
+  go_mono hg f f' hf args σ t1 t2 o h
+
+open Mimium.Unify in
+/-- … so above the bound of `C04_unify_terminates` every pair of fuels gives the SAME store and answer: on acyclic stores the ported
+`unify_types` / `unify_types_args` are total functions of (store, types). -/
+theorem C04_unify_fuel_irrelevant (σ : Unify.Store) (t1 t2 : Unify.Ty) (hσ : Occurs.Acyclic (absS σ)) (args : Bool) (g f g' f' : Nat)
+    (hg : fuelG σ t1 t2 ≤ g) (hf : fuelF σ t1 t2 ≤ f) (hg' : fuelG σ t1 t2 ≤ g') (hf' : fuelF σ t1 t2 ≤ f') :
+    go g f args σ t1 t2 = go g' f' args σ t1 t2 := by
+  obtain ⟨σ', r, h⟩ := go_terminates σ t1 t2 hσ args _ _ (Nat.le_refl _) (Nat.le_refl _)
+  rw [go_mono hg _ f hf args σ t1 t2 _ h, go_mono hg' _ f' hf' args σ t1 t2 _ h]
+
+/-- non-vacuity: the bound on a request with a binding and a one-sided descent; and fuel 1 is not enough -/
+example : Unify.fuelG [] (.fn (.var 0) (.prim .num)) (.fn (.tuple [.prim .num]) (.var 1)) = 81 ∧
+    Unify.fuelF [] (.fn (.var 0) (.prim .num)) (.fn (.tuple [.prim .num]) (.var 1)) = 42052 ∧
+    Unify.verdict (Unify.go 81 42052 false [] (.fn (.var 0) (.prim .num)) (.fn (.tuple [.prim .num]) (.var 1))) = some (.ok .ident) ∧
+    Unify.verdict (Unify.go 81 1 false [] (.fn (.var 0) (.prim .num)) (.fn (.tuple [.prim .num]) (.var 1))) = none := by
+  decide +kernel
 
 end Mimium.Props.C04
